@@ -43,13 +43,21 @@ static int cb(int is_execve, const char *p, char *const a[], char *const e[]) { 
     for (int fd = 3; fd < 256; fd++) { int fl; if (!fd_base[fd] && (fl = fcntl(fd, F_GETFD)) >= 0 && !(fl & FD_CLOEXEC)) { char lp[64], tg[512]; snprintf(lp, sizeof lp, "/proc/self/fd/%d", fd); ssize_t tl = readlink(lp, tg, sizeof tg - 1); tg[tl > 0 ? tl : 0] = 0;
             const char *bn = strrchr(tg, '/'); bn = bn ? bn + 1 : tg; if (!strncmp(bn, "tsan.", 5) || !strncmp(bn, "asan.", 5) || !strncmp(bn, "ubsan.", 6)) continue;   /* the sanitizer's own report file */ __atomic_add_fetch(&inheritable_seen, 1, __ATOMIC_RELAXED); __atomic_store_n(&inheritable_fd, fd, __ATOMIC_RELAXED); } }
     errno = ENOENT; return -1; }
+static int reader_in_fgets;
+static void *stdio_reader(void *arg) { int *rp = arg; FILE *f = fdopen(rp[0], "r"); char b[64]; __atomic_store_n(&reader_in_fgets, 1, __ATOMIC_RELEASE); if (f && fgets(b, sizeof b, f)) {} return NULL; }
 static void one_call(int t, int j) {
     char path[64], a1[64], a2[64]; snprintf(path, sizeof path, "/t%d/prog%d", t, j); snprintf(a1, sizeof a1, "arg-t%d-j%d", t, j); snprintf(a2, sizeof a2, "T%dT%dT%d", t, t, t);
     char *av[] = { "cmd", a1, a2, NULL }; char *ev[] = { "A=1", NULL };
     errno = 0; int r = execve(path, av, ev); if (r != -1 || errno != ENOENT) bad_ret[t < 0 ? 7 : t]++;
 }
+static void *child_thread_exec(void *arg) { int *ok = arg; int before = rec_calls[7]; char *av[] = { "childcmd", "childarg", NULL }; char *ev[] = { NULL }; errno = 0; int r = execve("/child/prog", av, ev); *ok = (r == -1 && errno == ENOENT && rec_calls[7] == before + 1); return NULL; }
 static void child_body(int depth) {
     /* runs in the forked child: optionally fork again, then make one wrapped call */
+    if (depth == 11) {   /* the child becomes multithreaded itself: a NEW thread of the child makes the call (and a second one forks) while the forking thread just waits */
+        int ok = 0, ok2 = 0; pthread_t t1, t2; pthread_create(&t1, NULL, child_thread_exec, &ok); pthread_join(t1, NULL);
+        pthread_create(&t2, NULL, child_thread_exec, &ok2); pthread_join(t2, NULL);
+        _exit(ok && ok2 ? 0 : 3);
+    }
     if (depth > 1) { pid_t p = vs_fork(); if (p > 0) { int st; waitpid(p, &st, 0); _exit(WIFEXITED(st) ? WEXITSTATUS(st) : 99); } if (p == 0) { child_body(depth - 1); } }
     int before = rec_calls[0];
     char *av[] = { "childcmd", "childarg", NULL }; char *ev[] = { NULL };
@@ -79,6 +87,10 @@ int main(int argc, char **argv) {
     verif_rec_cb = cb;
     umask(027);
     if (getenv("VS_STDIN_PTY")) { int m = posix_openpt(O_RDWR | O_NOCTTY); grantpt(m); unlockpt(m); int sl = open(ptsname(m), O_RDWR | O_NOCTTY); dup2(sl, 0); close(sl); }
+    /* caller states: stderr/stdout a pipe whose reader is gone; a thread of the program (not one of the calling threads) blocked inside
+       a stdio read - it holds that stream's lock for as long as it waits */
+    { const char *g = getenv("VS_STD_GONE"); for (; g && *g; g++) { int p[2]; if (pipe(p)) return 3; close(p[0]); dup2(p[1], *g - '0'); close(p[1]); } }
+    if (getenv("VS_STDIO_READER")) { static int rp[2]; static pthread_t rt; if (pipe(rp)) return 3; pthread_create(&rt, NULL, stdio_reader, rp); while (!__atomic_load_n(&reader_in_fgets, __ATOMIC_ACQUIRE)) usleep(1000); usleep(20000); }
     vs_init(N); vs_state_cb = state_digest;
     fd_baseline();
     pthread_t th[8];
